@@ -28,6 +28,9 @@ Record rules := {
   flatten_preorder : bool;           (* the file is appended before its imports are visited *)
   flatten_order : flatten_dir;
   index_ops : list index_op;
+  collect_blocks_only_in_read_and_wait : bool; (* collectSpecs (closures included) has no channel send/receive, select,
+                                        go statement, second Lock, semaphore Acquire, SetLimit/TryGo, Cond/WaitGroup wait: the only
+                                        places a goroutine of the collection can block are the reader call and g.Wait() *)
   extract_separators : list N;       (* ... and which characters (codes) may follow the keyword `import` for a line to
                                         count as an import statement: the lexer's WS is [ \t]+ *)
   extract_every_import_line : bool   (* extractImports: the scan loop over the lines has the single statement
@@ -49,5 +52,6 @@ Definition expected_rules : rules := {|
   flatten_order := Forward;
   index_ops := [ReplaceBackslash; CutAtVersion];
   extract_every_import_line := true;
+  collect_blocks_only_in_read_and_wait := true;
   extract_separators := [9; 32]%N
 |}.
